@@ -290,6 +290,37 @@ def call(an, st, fid, fn, t, callee, resolved, args, record):
         if type(args[0]) is A.IterV:
             return args[0], st
         return NotImplemented
+    if c == "std::iter::Iterator::find":
+        # the predicate is a closure analysed as a function of its own; the result is one of the items or None
+        it = args[0]
+        if type(it) is A.RefV:
+            it = an.read_target(st, it.target, fn)
+        if type(it) is A.IterV:
+            if it.kind == "empty":
+                return A.none(), st
+            item = it.item
+            if type(item) is IntV:
+                item = item.with_(vn=A.fresh_vn())
+            return A.opt(item, True), st
+        return NotImplemented
+    if c == "std::option::Option::<T>::unwrap_or":
+        v = args[0]
+        if type(v) is A.EnumV and type(args[1]) is IntV:
+            outs = []
+            if 1 in v.variants and type(v.variants[1].fields[0]) is IntV:
+                outs.append(v.variants[1].fields[0])
+            elif 1 in v.variants:
+                return an.top_of_str(dty), st
+            if 0 in v.variants:
+                outs.append(args[1])
+            if not outs:
+                return None
+            rng = an.rng_fn(st)
+            outs = [norm(x, rng) for x in outs]
+            lo = min(x.nlo for x in outs)
+            hi = max(x.nhi for x in outs)
+            return IntV(lo, hi, outs[0].bits, outs[0].signed), st
+        return an.top_of_str(dty), st
     if c == "std::iter::Iterator::enumerate":
         it = args[0]
         if type(it) is A.IterV:
